@@ -188,6 +188,22 @@ CHECKS = {
         note=TRUST,
         technique='Rocq proof of the look-ahead rule (partial) + differential co-execution and statement checking against the Python code',
     ),
+    'C13': dict(
+        ref='5.13',
+        text='Theorems in coq/Properties/C13.v (partial): parse.render.parse = parse for single-line fields, whitespace lists '
+             'and single copyright statements for EVERY value, and for multi-line copyright fields whose lines each hold a '
+             'word; render.parse.render.parse = render.parse for formatted text on policy-conformant values; decode.encode = '
+             'identity on extra data in decoded normal form (to_dict/from_dict); an extra field rendered raw as '
+             '"Name: first line / continuation lines" is read back by the line-tracking parser as exactly that text '
+             '(corollary of the C06 grammar theorem: no indentation gained per cycle - the pinned-tree defect F13); no '
+             'encoded formatted value contains an empty line or a line boundary. NOT proved: stability of line lists '
+             '(Upstream-Contact) and of the License field, and the composition into whole documents (render.parse.render = '
+             'render, same number of paragraphs, equal dictionary forms, from_dict(to_dict) at paragraph level): decided by '
+             'co-execution of the complete model (rendering included) with copyright.py on generated DEP-5 documents and '
+             'on their renderings (second cycle), and by the executable statement on every generated document.',
+        note=TRUST,
+        technique='Rocq proof (partial) over a Gallina model + differential co-execution against the Python code',
+    ),
     'C14': dict(
         ref='5.14',
         text='Theorems in coq/Properties/C14.v (partial): every well-formed alternative (name, optional operator and version, '
